@@ -253,7 +253,7 @@ fn spawn_worker(bin: &str, prop: &str, tier: &str, cfg: &CheckConfig, start: u64
 }
 
 fn write_replay(cfg: &CheckConfig, rf: &ReplayFile, tag: &str) -> String {
-    let dir = format!("{}/replays", cfg.verif_dir);
+    let dir = std::env::var("VERIF_REPLAY_DIR").unwrap_or_else(|_| format!("{}/replays", cfg.verif_dir));
     let _ = std::fs::create_dir_all(&dir);
     let path = format!("{dir}/{}-{}{}.json", rf.property, rf.seed, tag);
     std::fs::write(&path, serde_json::to_string_pretty(rf).unwrap()).expect("write replay");
@@ -552,7 +552,7 @@ pub fn run_check(prop: &dyn Property, tier_s: &str, cfg: &CheckConfig) -> i32 {
             }
         }
     });
-    let dir = format!("{}/evidence", cfg.verif_dir);
+    let dir = std::env::var("VERIF_EVIDENCE_DIR").unwrap_or_else(|_| format!("{}/evidence", cfg.verif_dir));
     let _ = std::fs::create_dir_all(&dir);
     let path = format!("{dir}/{}.json", prop.id());
     std::fs::write(&path, serde_json::to_string_pretty(&evidence).unwrap()).expect("write evidence");
